@@ -290,6 +290,19 @@ public:
         return _weight;
     }
 
+#ifdef PARMCB_VERIF
+    // read-only accessors for verification harnesses (no effect on behaviour)
+    const Graph& verif_spanner() const {
+        return _spanner;
+    }
+    const std::map<Edge, Edge>& verif_edge_spanner_to_g() const {
+        return _edge_spanner_to_g;
+    }
+    const std::vector<Edge>& verif_non_spanner_edges() const {
+        return _non_spanner_edges;
+    }
+#endif
+
 private:
     // graph
     const Graph &_g;
